@@ -234,8 +234,8 @@ type exec struct {
 
 	// expectation (fault-free)
 	latest   []uint32
-	expInv   []inv         // invocations in order, until a reverting manager
-	revertAt int           // index of the first manager whose stored version is above its latest, -1
+	expInv   []inv           // invocations in order, until a reverting manager
+	revertAt int             // index of the first manager whose stored version is above its latest, -1
 	final    *dbmodel.Bucket // database after a successful upgrade (nil if the upgrade must be refused)
 	initial  *dbmodel.Bucket
 
